@@ -4,7 +4,7 @@ import json, os
 ROOT = os.path.dirname(os.path.dirname(os.path.abspath(__file__)))
 tab = json.load(open(os.path.join(ROOT, "tools", "manifest_table.json")))
 import glob
-tab["checks"] = {os.path.basename(f)[:-5]: json.load(open(f)) for f in sorted(glob.glob(os.path.join(ROOT, "tools", "manifest_entries", "C*.json")))}
+tab["checks"] = {os.path.basename(f)[:-5]: json.load(open(f)) for f in sorted(glob.glob(os.path.join(ROOT, "tools", "manifest_entries", "C*.json"))) if os.path.basename(f)[:-5] in tab.get("enabled", [])}
 props = [json.loads(l) for l in open(os.path.join(ROOT, "properties.jsonl"))]
 checks, na = [], []
 for p in props:
